@@ -236,6 +236,29 @@ def ob_whole_runs(n: int, s1: int, s2: int, h0: int, h1: int) -> bool:
     return _whole_scenario([_lim(n), 1], [0, 0, 1], [0, s1, s2], [h0, h1, 0])
 
 
+@obligation(quick=300, thorough=600,
+            partitions_quick=[f"n == {n} and s1 == {a}" for n in (1, 2, 3) for a in (0, 1, 2)],
+            partitions_thorough=[f"n == {n} and s1 == {a} and s2 == {b}" for n in (1, 2, 3) for a in (0, 1, 2) for b in (0, 1, 2, 3)],
+            what="whole runs through the REAL Workflow.run -> BasicRuntime.run_workflow (task done-callbacks, registry, semaphore map "
+                 "included) -> control loop -> step: 4 runs of ONE instance with limit n, started at symbolic instants and holding their "
+                 "slot for symbolic durations — runs that end while siblings still hold slots, then new starts: never more than n inside "
+                 "steps, every run executes",
+            bounds={"N": "1..3", "runs": 4, "start": "0..2 (thorough 3)", "hold": "1..2"})
+def ob_whole_runs_one_instance(n: int, s1: int, s2: int, s3: int, h0: int, h1: int, h2: int, h3: int) -> bool:
+    """
+    pre: 1 <= n <= 3 and 0 <= s1 <= SW and 0 <= s2 <= SW and 0 <= s3 <= SW
+    pre: 1 <= h0 <= 2 and 1 <= h1 <= 2 and 1 <= h2 <= 2 and 1 <= h3 <= 2
+    post: _
+    """
+    n = concrete(n, 1, 3)
+    s1, s2, s3 = concrete(s1, 0, SW), concrete(s2, 0, SW), concrete(s3, 0, SW)
+    h0, h1, h2, h3 = concrete(h0, 1, 2), concrete(h1, 1, 2), concrete(h2, 1, 2), concrete(h3, 1, 2)
+    return _whole_scenario([n, 1], [0, 0, 0, 0], [0, s1, s2, s3], [h0, h1, h2, h3])
+
+
+SW = B(2, 3)
+
+
 # --------------------------------------------------------------------------------------------------------------
 # a run cancelled while it is still QUEUED for a slot must not change the limit
 # --------------------------------------------------------------------------------------------------------------
